@@ -82,7 +82,10 @@ class ParserState:
         assert self.parser
 
         if skip := self.parser.rules.get("SKIP"):
-            return skip.parse(self, pairs)
+            # Like the unoptimized loop below, the optimized rule must not
+            # contribute to failure reports.
+            with self.suppress_failures():
+                return skip.parse(self, pairs)
 
         # Unoptimized whitespace and comment rules.
         whitespace_rule = self.parser.rules.get("WHITESPACE")
